@@ -11,8 +11,8 @@
       with a kept element connecting different energies the property is FALSE on the unchanged
       code (the X_S line of the algorithm omits [H_0, U'_S]) - known finding
       C05-kept-distinct-energies, replayed on the implementation by the check.
-    The clause "on Hermitian input the outputs coincide with the Hermitian mode" is checked by
-    the oracle only (no theorem yet). *)
+    The clause "on Hermitian input the outputs coincide with the Hermitian mode" is
+    [C05_hermitian_coincide_partial] (same extra hypothesis), and checked by the oracle. *)
 Require Import Ncring String List Morphisms.
 From PV.Base Require Import Classes AlgLemmas.
 From PV.DSL Require Import Syntax Sem.
